@@ -536,4 +536,9 @@ void register_rect_c();
 void register_rect_d();
 void register_vec();
 void register_dim();
+void register_narrow();
+void register_narrow_mixed_a();
+void register_narrow_mixed_b();
+void register_strided_vec();
+void register_strided_mat();
 }
